@@ -877,6 +877,9 @@ class C17(Property):
         "frames_step_refines", "frames_run_refines", "frames_run_refines_init",
         "refGuard_of_histGuard", "getitem_visible", "frames_histories_partial", "frames_results_partial",
         "step_read_state", "run_insert_reads", "lazy_is_unobservable", "frameHist_guard",
+        # p1: guard invariance under inserted reads (no method call touches what refGuard looks at)
+        "sharedInit_store", "store_pull", "store_op", "read_step_store", "store_fstep",
+        "refGuard_insert_reads_from", "refGuard_insert_reads", "lazy_is_unobservable_two_guards",
     )]
     extra_proof_modules = ["Proofs.C17Frames", "Proofs.C17FramesWrite", "Proofs.C17FramesInst",
                            "Proofs.C17FramesStep", "Proofs.C17FramesHist"]
